@@ -24,8 +24,9 @@ far too many for a scalar kernel loop.  Two reductions make it a one-minute comp
     moves the first error symbol to `1` (`scale_first`).  Linearity is by construction (`linExp`),
     the commutation law is checked on the 30 basis vectors and extended by `lin_ext`.
 
-Cost: the kernel evaluation allocates ≈ 12 GB in total (every intermediate 3.6 kB number is kept
-in the kernel's reduction cache of the declaration being checked); ≈ 1.5 minutes.
+Cost: the kernel keeps every intermediate 3.6 kB number in the reduction cache of the declaration
+being checked (≈ 12 GB over all of them), hence the four-error evaluation is cut into 7 declarations
+of ≈ 2 GB each, checked sequentially (`Elab.async false`).
 -/
 import BipVerif.Lemmas.BechDistance
 
@@ -803,6 +804,11 @@ theorem b4_of_chunk (lo cnt : Nat)
   rw [← iter_add] at this
   have e : k3 - lo + lo = k3 := by omega
   rwa [e] at this
+
+/-! The kernel evaluations.  `Elab.async false` makes Lean check them one after the other on one
+thread, so that the ≈ 2 GB of cached intermediate numbers of one chunk are freed and reused by the
+next instead of all chunks being evaluated (and their memory being held) concurrently. -/
+set_option Elab.async false
 
 theorem b4_chunk0 : loopK3 bStp bTst bP2 bP 4 (88 - 0) (iterV bStp 0 bStart) = true := by
   decide +kernel
